@@ -3,7 +3,7 @@
    [obs_equal] to the one serialized; the readers are shown to depend on nothing else
    (Proofs/TextFormatRoundTrip.v, Proofs/ArcProofs.v). *)
 From Coq Require Import List NArith ZArith Bool Lia ZifyBool ZifyNat ZifyN.
-From Mila Require Import Lib.Bytes Lib.Machine Model.BinArchive Model.BinStreams Proofs.AMapLemmas Proofs.BinAccess Proofs.BinAccess2.
+From Mila Require Import Lib.Bytes Lib.Machine Model.BinArchive Model.BinStreams Proofs.AMapLemmas Proofs.BinAccess Proofs.BinAccess2 Proofs.FindLabel.
 Import ListNotations.
 Local Open Scope N_scope.
 
@@ -11,11 +11,13 @@ Local Open Scope N_scope.
 Definition label_addrs (a : archive) (l : bytes) : list N :=
   map fst (filter (fun p : N * list bytes => existsb (bytes_eqb l) (snd p)) (a_labels a)).
 
+(* repaired code (fix 10408e9): the LOWEST of these addresses ([label_addrs] = Model.BinArchive.label_hits) *)
 Lemma find_label_address_addrs a l :
-  find_label_address a l = match label_addrs a l with x :: _ => Some x | [] => None end.
+  find_label_address a l = match label_addrs a l with x :: r => Some (min_of x r) | [] => None end.
+Proof. reflexivity. Qed.
+Lemma min_of_all_eq x y r : (forall z, In z (y :: r) -> z = x) -> min_of y r = x.
 Proof.
-  unfold find_label_address, label_addrs. induction (a_labels a) as [|p r IH]; cbn [find filter map]; [reflexivity|].
-  destruct (existsb (bytes_eqb l) (snd p)); cbn [map]; [reflexivity | exact IH].
+  intros H. destruct (min_of_in r y) as [E|Hin]; [rewrite E; apply H; left; reflexivity | apply H; right; exact Hin].
 Qed.
 
 Record obs_equal (a a' : archive) : Prop := {
@@ -88,5 +90,5 @@ Proof.
     assert (G : am_get x (a_labels a') = Some b) by (rewrite Hget; apply am_in_get; assumption).
     apply am_get_in in G. apply label_addrs_in. exists b. auto. }
   rewrite find_label_address_addrs. destruct (label_addrs a' l) as [|y r]; [destruct Hx|].
-  f_equal. apply Hall. left. reflexivity.
+  f_equal. apply min_of_all_eq. exact Hall.
 Qed.
